@@ -20,7 +20,7 @@ use std::rc::Rc;
 
 pub const ID: &str = "C10";
 
-pub const RULE: &str = "cases = (grammar, token sequence); each case is parsed (parse and check, Rich errors, every node wrapped in a span-recording map_with, try_map / validate / select closures recording their spans) through the &[char] baseline and through every other input kind the grammar can run on: &str, &[char; N] (N = 0..=6, 8), Stream over a counting iterator, Stream::boxed(), Stream::exact_size_boxed(), slice.map(eoi, ..) and Stream.map(eoi, ..) over (token, span) pairs with generated GAPPED spans, IterInput over such pairs (Input-only grammars: just / end / empty and combinators), IoInput over a Cursor<Vec<u8>> (ASCII cases), &str.with_context(ctx), slice.map_span(shift by 1000). Grammars: C01/C02/C08 classes (recovery incl. nested_delimiters, validate emitters, span captures), half of them over ASCII alphabets. Oracle: same has_output, same output value with every embedded span equal after the documented re-basing (byte offsets for text, the tokens' own spans for mapped inputs -- first.start..last.end, an empty match an empty span between its neighbours --, +1000 for map_span, the context attached for with_context), same number of errors, and for every error the same found / expected set / message / label contexts and the re-based span. Every Stream: the log shared by all clones of the iterator must read 0,1,2,.. (each item pulled at most once, in order, never more than the input holds) after parse and after check. Long family: 7 grammar shapes that backtrack from the far end to the start (choice of two long alternatives differing at the end, repetition then a failing tail, and_is over the whole input, rewind, recovery skipping to a late token, separated list, or_not prefix) with run lengths around 512, 1024 and (IoInput's BufReader) 8192. Graphemes: random strings over combining marks, ZWJ emoji sequences, regional indicators, CRLF, Hangul jamo, variation selectors: any().map_with(span).repeated().collect() over Graphemes::new(s), also behind a backtracking first alternative, must equal unicode_segmentation::graphemes(s, true) with byte-offset spans. NON-TRIVIAL = the reference backtracked over at least one consumed token on that input (the cursor moved backwards in the representation), or (long family) the backtrack crossed a 512-token batch boundary / the IoInput had to seek backwards, or (graphemes) the string has a multi-code-point cluster; distinct by (grammar, input).";
+pub const RULE: &str = "cases = (grammar, token sequence); each case is parsed (parse and check, Rich errors, every node wrapped in a span-recording map_with, try_map / validate / select closures recording their spans) through the &[char] baseline and through every other input kind the grammar can run on: &str, &[char; N] (N = 0..=6, 8), Stream over a counting iterator, Stream::boxed(), Stream::exact_size_boxed(), slice.map(eoi, ..) and Stream.map(eoi, ..) over (token, span) pairs with generated GAPPED spans, IterInput over such pairs (Input-only grammars: just / end / empty and combinators), IoInput over a Cursor<Vec<u8>> (ASCII cases; at offset 0 and handed over at a non-zero offset behind an already-read header), &str.with_context(ctx), slice.map_span(shift by 1000). Grammars: C01/C02/C08 classes (recovery incl. nested_delimiters, validate emitters, span captures), half of them over ASCII alphabets. Oracle: same has_output, same output value with every embedded span equal after the documented re-basing (byte offsets for text, the tokens' own spans for mapped inputs -- first.start..last.end, an empty match an empty span between its neighbours --, +1000 for map_span, the context attached for with_context), same number of errors, and for every error the same found / expected set / message / label contexts and the re-based span. Every Stream: the log shared by all clones of the iterator must read 0,1,2,.. (each item pulled at most once, in order, never more than the input holds) after parse and after check. Long family: 7 grammar shapes that backtrack from the far end to the start (choice of two long alternatives differing at the end, repetition then a failing tail, and_is over the whole input, rewind, recovery skipping to a late token, separated list, or_not prefix) with run lengths around 512, 1024 and (IoInput's BufReader) 8192. Graphemes: random strings over combining marks, ZWJ emoji sequences, regional indicators, CRLF, Hangul jamo, variation selectors: any().map_with(span).repeated().collect() over Graphemes::new(s), also behind a backtracking first alternative, must equal unicode_segmentation::graphemes(s, true) with byte-offset spans. NON-TRIVIAL = the reference backtracked over at least one consumed token on that input (the cursor moved backwards in the representation), or (long family) the backtrack crossed a 512-token batch boundary / the IoInput had to seek backwards, or (graphemes) the string has a multi-code-point cluster; distinct by (grammar, input).";
 
 pub const ASSUMPTIONS: &[&str] = &[
     "the &[char] baseline (tied to the reference PEG / error semantics by C01, C05, C06, C08)",
@@ -241,6 +241,27 @@ pub fn check_inner(sub: &str, g: &G, toks: &[char], gap_seed: u64, l: &mut Local
     if ascii {
         let bytes: Vec<u8> = toks.iter().map(|c| *c as u8).collect();
         kind!("io_input", one_kind::<IoIn>(g, &|| chumsky::input::IoInput::new(std::io::Cursor::new(bytes.clone())), &sm_idx, 0, &base, &none, l));
+        // the same bytes behind a header that the caller has already read: the reader is handed over at a non-zero
+        // offset (a file whose magic number was consumed), so stream position != parse position
+        let hdr = 1 + (gap_seed as usize % 7) * 3;
+        let mut with_hdr: Vec<u8> = (0..hdr).map(|i| b"ab,()"[i % 5]).collect();
+        with_hdr.extend_from_slice(&bytes);
+        kind!(
+            "io_input_after_header",
+            one_kind::<IoIn>(
+                g,
+                &|| {
+                    let mut c = std::io::Cursor::new(with_hdr.clone());
+                    c.set_position(hdr as u64);
+                    chumsky::input::IoInput::new(c)
+                },
+                &sm_idx,
+                0,
+                &base,
+                &none,
+                l
+            )
+        );
     }
     l.add("kind_comparisons", kinds);
     // classification
@@ -408,7 +429,7 @@ pub fn run(tier: Tier, seed: u64) -> i32 {
         Ok(())
     });
     // random tier
-    let n = ctx.pick(250_000, 4_000_000);
+    let n = ctx.pick(600_000, 5_000_000);
     ctx.par_random(n, 200, 10, |tape, l| {
         let (g, input, seed) = decode(tape);
         debug_assert!(wf(&g), "ill-formed: {}", render(&g));
@@ -446,7 +467,7 @@ pub fn run(tier: Tier, seed: u64) -> i32 {
     });
     ctx.finish(&check_case, RULE, ASSUMPTIONS, &|l| {
         for k in [
-            "kind:str", "kind:with_context", "kind:map_span", "kind:array", "kind:stream", "kind:stream_boxed", "kind:stream_exact_size_boxed", "kind:slice_map", "kind:stream_map", "kind:iter_input", "kind:io_input",
+            "kind:str", "kind:with_context", "kind:map_span", "kind:array", "kind:stream", "kind:stream_boxed", "kind:stream_exact_size_boxed", "kind:slice_map", "kind:stream_map", "kind:iter_input", "kind:io_input", "kind:io_input_after_header",
             "backtracked_over_consumed_tokens", "long_backtrack_across_batch_boundary", "long_io_seek_back_beyond_bufreader", "graphemes_multi_code_point_cluster", "accepted", "rejected", "recovered",
         ] {
             if l.counters.get(k).copied().unwrap_or(0) == 0 {
